@@ -72,7 +72,7 @@ def rsl_triples(sy, rsl, prefix=""):
         else:
             dl = 0
         if _is_scalar(sing) and _is_scalar(dl):
-            out.append((prefix + "primitive(dloc/dz = -sing)", dl, -sing if not isinstance(sing, int) or sing else 0, {"tol": tau, "replay_tol": 1e-6}))
+            out.append((prefix + "primitive(dloc/dz = -sing)", dl, -sing if not isinstance(sing, int) or sing else 0, {"tol": tau, "replay_tol": 1e-6, "nocross": True}))  # native side is a finite difference: not a cross-check of the engine
     return out
 
 
